@@ -175,3 +175,90 @@ theorem filterPixel_congr (f : Fmt) (s s' : Img) (a b ox oy : Nat) (ha : 0 < a) 
     simpa using this
 
 end VncModel.Scale
+
+namespace VncModel.Scale
+
+/-! ## updateRect -/
+
+theorem updateRect_dims (f : Fmt) (src dst : Img) (r : Rect) :
+    (updateRect f src dst r).w = dst.w ∧ (updateRect f src dst r).h = dst.h := ⟨rfl, rfl⟩
+
+theorem updateRect_get (f : Fmt) (src dst : Img) (r : Rect) {X Y : Nat} (hX : X < dst.w) (hY : Y < dst.h) :
+    (updateRect f src dst r).get X Y =
+      if (corr false src.w src.h dst.w dst.h r).has X Y then scaledPixel f src dst.w dst.h X Y
+      else dst.get X Y := by
+  unfold updateRect
+  rw [Img.get_tabulate _ _ _ hX hY]
+
+theorem corr_nat (fw fh tw th x y w h : Nat) :
+    corr false fw fh tw th ⟨x, y, w, h⟩ =
+      ⟨(corr1 fw tw x w).1, (corr1 fh th y h).1, (corr1 fw tw x w).2, (corr1 fh th y h).2⟩ := by
+  simp [corr]
+
+theorem has_iff (r : Rect) (X Y : Nat) :
+    r.has X Y = true ↔ (r.x ≤ X ∧ (X : Int) < r.x + r.w ∧ r.y ≤ Y ∧ (Y : Int) < r.y + r.h) := by
+  simp [Rect.has]
+
+/-- The refresh of a modified rectangle re-establishes "scaled copy = reference image": if the
+copy was the reference image of `src`, and `src'` differs from `src` only inside the rectangle
+`(x,y,w,h)`, then after rfbScaledScreenUpdateRect the copy is the reference image of `src'`.
+`hrx/hry`: the double part of rfbScaledCorrection satisfies the relational bounds. -/
+theorem updateRect_tracks (f : Fmt) (src src' dst : Img) (x y w h : Nat)
+    (hdw : src'.w = src.w) (hdh : src'.h = src.h)
+    (htw : 0 < dst.w) (hth : 0 < dst.h) (hlw : dst.w ≤ src.w) (hlh : dst.h ≤ src.h)
+    (hsame : ∀ px py, px < src.w → py < src.h →
+      ¬ (x ≤ px ∧ px < x + w ∧ y ≤ py ∧ py < y + h) → src'.get px py = src.get px py)
+    (hinv : ∀ X Y, X < dst.w → Y < dst.h → dst.get X Y = scaledPixel f src dst.w dst.h X Y)
+    (hrx : CorrRel src.w dst.w x w (corrRaw src.w dst.w x w))
+    (hry : CorrRel src.h dst.h y h (corrRaw src.h dst.h y h)) :
+    ∀ X Y, X < dst.w → Y < dst.h →
+      (updateRect f src' dst ⟨x, y, w, h⟩).get X Y = scaledPixel f src' dst.w dst.h X Y := by
+  intro X Y hX hY
+  rw [updateRect_get f src' dst _ hX hY]
+  split
+  · rfl
+  · rename_i hn
+    rw [hinv X Y hX hY]
+    unfold scaledPixel
+    rw [hdw, hdh]
+    symm
+    apply filterPixel_congr f src src' _ _ _ _ (area_pos htw hlw) (area_pos hth hlh)
+    intro i j hi hj
+    have bx := block_inside (W := src.w) htw hX
+    have by' := block_inside (W := src.h) hth hY
+    apply hsame _ _ (by omega) (by omega)
+    intro ⟨b1, b2, b3, b4⟩
+    apply hn
+    rw [hdw, hdh, corr_nat, has_iff]
+    have cx := corrFix_covers (X := X) (sx := scaleN X dst.w src.w + i) hrx htw hX b1 b2
+      (by omega) (by omega)
+    have cy := corrFix_covers (X := Y) (sx := scaleN Y dst.h src.h + j) hry hth hY b3 b4
+      (by omega) (by omega)
+    unfold corr1
+    simp only
+    exact ⟨by exact_mod_cast cx.1, cx.2, by exact_mod_cast cy.1, cy.2⟩
+
+/-- the refresh of the whole screen produces the reference image whatever the copy held before -/
+theorem updateRect_full (f : Fmt) (src dst : Img)
+    (htw : 0 < dst.w) (hth : 0 < dst.h) (hlw : dst.w ≤ src.w) (hlh : dst.h ≤ src.h)
+    (hrx : CorrRel src.w dst.w 0 src.w (corrRaw src.w dst.w 0 src.w))
+    (hry : CorrRel src.h dst.h 0 src.h (corrRaw src.h dst.h 0 src.h)) :
+    ∀ X Y, X < dst.w → Y < dst.h →
+      (updateRect f src dst ⟨(0 : Nat), (0 : Nat), src.w, src.h⟩).get X Y = scaledPixel f src dst.w dst.h X Y := by
+  intro X Y hX hY
+  have hc : (corr false src.w src.h dst.w dst.h ⟨(0 : Nat), (0 : Nat), src.w, src.h⟩).has X Y = true := by
+    rw [corr_nat, has_iff]
+    have ax := area_pos htw hlw
+    have ay := area_pos hth hlh
+    have bx := block_inside (W := src.w) htw hX
+    have by' := block_inside (W := src.h) hth hY
+    have cx := corrFix_covers (X := X) (sx := scaleN X dst.w src.w) hrx htw hX
+      (by omega) (by omega) (by omega) (by omega)
+    have cy := corrFix_covers (X := Y) (sx := scaleN Y dst.h src.h) hry hth hY
+      (by omega) (by omega) (by omega) (by omega)
+    unfold corr1
+    simp only
+    exact ⟨by exact_mod_cast cx.1, cx.2, by exact_mod_cast cy.1, cy.2⟩
+  rw [updateRect_get f src dst _ hX hY, hc]; rfl
+
+end VncModel.Scale
